@@ -1,7 +1,7 @@
 package server
 
 // C09_sendfiles: the file phase of a full transfer stops exactly at the position the leader
-// announced.  A leader persists 4 records with a rotation after every 2 (positions (1,1) (1,2)
+// announced.  A leader persists 4 records with a rotation after the second (positions (1,1) (1,2)
 // (2,1) (2,2)); a follower was told "everything before position B comes from the files", B being
 // any of (1,1) .. (2,3) — (1,3) and (2,3) lie behind the last record of their file, as happens when
 // the announced record has since run out or been compacted.  The real ReplicationServer.sendFiles
@@ -21,9 +21,10 @@ func vfH_C09_sendfiles() {
 	vfSetClock(vfBaseTime, 0)
 	vfOpenAof(env, dir)
 	aof := env.slock.aof
-	aof.rewriteSize = 12 + 64*2
-	aof.isRewriting = true // no background compaction while the log is written
 	for i := 0; i < 4; i++ {
+		if i == 2 {
+			vfRotate(env) // the rotation RewriteAofFile does at the size threshold, without its background compaction job
+		}
 		c := env.newCmd(protocol.COMMAND_LOCK, vfKey(uint8(1+i)), vfLockId(uint8(1+i)))
 		c.Expried, c.ExpriedFlag = 0xffff, 0x4100
 		env.lock(0, c)
@@ -31,7 +32,6 @@ func vfH_C09_sendfiles() {
 	}
 	aof.Flush()
 	vfDropSpawned()
-	aof.isRewriting = false
 	bounds := [6][2]uint32{{1, 1}, {1, 2}, {1, 3}, {2, 1}, {2, 2}, {2, 3}}
 	b := bounds[vfChoice("bound", 6)]
 	conn := &vfConn{}
@@ -39,7 +39,9 @@ func vfH_C09_sendfiles() {
 	rs := NewReplicationServer(env.slock.replicationManager, bp)
 	rs.waofLock.AofIndex, rs.waofLock.AofOffset = b[0], b[1]
 	err := rs.sendFiles()
-	vfAssert(err == nil, "C09: sendFiles failed")
+	if err != nil {
+		vfFail("C09: sendFiles failed: " + err.Error())
+	}
 	// what was sent
 	var sent [][2]uint32
 	marker := false
